@@ -46,10 +46,10 @@ m = {
            "baseline_off_cmd": "cd /repo && GOFLAGS=-mod=mod GOPROXY=off GOSUMDB=off go test -vet=off -count=1 -timeout 25m ./...",
            "source_commits": hooks, "add_only": True},
  "engines": [{"name": "govc", "path": "govc", "serves_properties": sorted(CLAIMED),
-              "kind_free_text": "self-written deductive verifier for Go: contracts as //@ comments in /repo/internal/**/contracts_verif*.go (+ trusted stdlib contracts in /verif/trusted), VC generation over go/ssa (x/tools v0.29.0), one SMT-LIB query per obligation, portfolio of z3 4.8.12, z3 5.1.0, cvc5 1.0"}],
+              "kind_free_text": "self-written deductive verifier for Go: contracts as //@ comments in /repo/internal/**/contracts_verif*.go (+ trusted stdlib contracts in /verif/trusted), VC generation over go/ssa (x/tools v0.29.0), one SMT-LIB query per obligation, portfolio of z3 4.8.12, z3 5.1.0, cvc5 1.0; after the obligations of a property it runs that property's bounded stand-ins (/verif/bounded/<prop>_*.go.tmpl: in-package Go tests run through go test -overlay on the tree under check), which are labelled bounded in the evidence (coverage.bounded_standins) and never counted among the proved obligations (DESIGN 13.8)"}],
  "checks": checks,
  "not_applicable": na,
- "notes": "Properties are decided function by function; see DESIGN.md. known_findings.txt lists defects found and fixed (fix: commits in /repo). seeded/ holds property-breaking changes used to test the checks.",
+ "notes": "Properties are decided function by function; see DESIGN.md. known_findings.txt lists defects found and fixed (fix: commits in /repo). seeded/ holds property-breaking changes used to test the checks. bounded/ holds the bounded stand-ins (DESIGN 13.8) for C02 C03 C04 C05 C06 C13 C14 C15 C16 C22 C24 C25.",
 }
 json.dump(m, open(os.path.join(HERE, "MANIFEST.json"), "w"), indent=1, ensure_ascii=False)
 print("claimed:", sorted(CLAIMED), "hooks:", len(hooks))
